@@ -197,6 +197,17 @@ type Invalidator interface {
 	InvalidateLag() error
 }
 
+// contextCause returns the reason a done context ended. context.Cause reports
+// nil for a custom context type (such as the store's primary context) whose
+// parent is a cancelable context that has not been canceled itself, so fall
+// back to the context's own error in that case.
+func contextCause(ctx context.Context) error {
+	if err := context.Cause(ctx); err != nil {
+		return err
+	}
+	return ctx.Err()
+}
+
 func assert(condition bool, msg string) {
 	if !condition {
 		panic("assertion failed: " + msg)
